@@ -129,7 +129,7 @@ def check_c13(case, stats):
 
 
 CHECKS = {'check_c13': check_c13}
-_B = {'quick': 40, 'thorough': 400}
+_B = {'quick': 40, 'thorough': 2000}
 
 
 def shards(tier):
